@@ -228,6 +228,27 @@ func VH_C16_txn(shape int) {
 			req.Failure = ops
 		}
 		invalid = kc == 0 || kc == 3 || vc == 3
+	case 6:
+		// predicates with raw enum values: compare.result / compare.target are open
+		// proto3 enums, a client can send any int32; the compared key exists
+		_, perr := n.kv.Put(context.Background(), &regattapb.PutRequest{Table: []byte("t"), Key: []byte("k"), Value: []byte("v")})
+		verif.Assume(perr == nil)
+		before = n.snap()
+		cmp := &regattapb.Compare{Key: []byte("k"), Result: regattapb.Compare_CompareResult(int32(verif.Int64())), Target: regattapb.Compare_CompareTarget(int32(verif.Int64()))}
+		if verif.Bool() {
+			cmp.TargetUnion = &regattapb.Compare_Value{Value: verif.Bytes(1)}
+		}
+		if verif.Bool() {
+			cmp.RangeEnd = []byte{0}
+		}
+		req.Compare = []*regattapb.Compare{cmp}
+		if verif.Bool() { // read-only: answered on the read path; otherwise through the log
+			req.Success = []*regattapb.RequestOp{{Request: &regattapb.RequestOp_RequestRange{RequestRange: &regattapb.RequestOp_Range{Key: []byte("k")}}}}
+		} else {
+			req.Success = []*regattapb.RequestOp{{Request: &regattapb.RequestOp_RequestPut{RequestPut: &regattapb.RequestOp_Put{Key: []byte("k"), Value: []byte("w")}}}}
+			req.Failure = []*regattapb.RequestOp{{Request: &regattapb.RequestOp_RequestPut{RequestPut: &regattapb.RequestOp_Put{Key: []byte("k"), Value: []byte("w")}}}}
+		}
+		verif.Cover("raw-enums")
 	default:
 		req.Success = []*regattapb.RequestOp{{}}
 	}
@@ -241,6 +262,11 @@ func VH_C16_txn(shape int) {
 		verif.Assert(n.snap() == before, "a refused transaction has no effect")
 		if shape == 0 || shape >= 4 {
 			verif.Assert(!fsm.VHHasKey(n.f, nestedKey), "no record outside the limits is ever created")
+		}
+	} else if shape == 6 {
+		// whatever the server makes of unknown enum values: it answers, and a refusal has no effect
+		if code != codes.OK {
+			verif.Assert(n.snap() == before, "a refused transaction has no effect")
 		}
 	} else if shape != 3 && shape != 4 {
 		verif.Assert(code == codes.OK, "a valid transaction is accepted")
